@@ -143,7 +143,7 @@ Definition ops : list op := [
   ("ebp.hist", fun a => match a with
      | [VL [VI f]; VL script] => match flavour_of f with Some f => hist_obs f (create f) script | None => vbad end
      | [VL [VB b]; VL script] =>
-       match ReadEncoderBoundaryPoint false b with
+       match ReadEncoderBoundaryPoint true b with
        | Ok (f, e) => VL [VI 0%Z; hist_obs f e script]
        | r => vres (fun _ => VL []) r
        end
